@@ -489,7 +489,6 @@ Fixpoint e2e_oracle (S : schema) (sites : list dsite) : option string :=
           if default_in_scope S (in_type (ds_def s)) v
              && negb (String.eqb (ds_e2e s) "ok" || String.eqb (ds_e2e s) "hidden") then
             Some (if has_astral v then "default-string-astral"
-                  else if has_ufffd v then "default-string-ufffd-real-lexer"
                   else "default-e2e-" ++ ds_e2e s)
           else e2e_oracle S r
       | None => e2e_oracle S r
@@ -565,18 +564,18 @@ Definition check_intro (l : list sexp) : sexp :=
               | Some o =>
                   if has_unmodelled r then v_bad "unmodelled-default" else
                   let on := normalise o in
-                  let hyps := depth_ok S && gating_coherent S F in
-                  (* 1. the Spec oracle on the implementation's output *)
-                  let d := describe spec_pr S F in
+                  let hyps := depth_ok S in
+                  (* 1. the Spec oracle on the implementation's output: the description, with the
+                        wrapper chains cut where the query stops looking (nothing is cut when
+                        [depth_ok]); references resolve when no chain was cut *)
+                  let d := truncate query_depth (describe spec_pr S F) in
                   let oracle :=
-                    if hyps then
-                      match schema_diff (default_present S) on d with
-                      | Some w => Some ("describe-" ++ w)
-                      | None =>
-                          if negb (refs_resolve on) then Some "reference-unresolved"
-                          else defaults_oracle S (collect_defaults on) (collect_defaults d)
-                      end
-                    else None in
+                    match schema_diff (default_present S) on d with
+                    | Some w => Some ("describe-" ++ w)
+                    | None =>
+                        if hyps && negb (refs_resolve on) then Some "reference-unresolved"
+                        else defaults_oracle S (collect_defaults on) (collect_defaults d)
+                    end in
                   match oracle <|> e2e_oracle S sites with
                   | Some key => v_oracle_fail key []
                   | None =>
@@ -585,7 +584,7 @@ Definition check_intro (l : list sexp) : sexp :=
                       | Some w => v_mismatch w []
                       | None =>
                           if negb (Nat.eqb nerr (count_errors r)) then v_mismatch "error-count" [of_nat (count_errors r)]
-                          else v_ok (intro_classes S F sites r ++ (if hyps then [] else ["outside-hypotheses"]))%list
+                          else v_ok (intro_classes S F sites r ++ (if gating_coherent S F then [] else ["incoherent-gating"]))%list
                       end
                   end
               end
@@ -731,7 +730,7 @@ Definition check_rebuild (l : list sexp) : sexp :=
       match dec_schema sc, dec_names fs, dec_data data, dec_rebuilt rb, map_opt dec_doc dl with
       | Some (Sc, _), Some F, Some (Some o), Some robs, Some docs =>
           let S := Sc in
-          let hyps := depth_ok S && gating_coherent S F in
+          let hyps := depth_ok S in
           let model := rebuild o in
           (* 1. oracle: the rebuilt definition is the visible part of the original, and verdicts agree *)
           let oracle :=
@@ -776,6 +775,7 @@ Definition check_rebuild (l : list sexp) : sexp :=
                               (if existsb (fun d => String.eqb (d_orig d) "panic" || String.eqb (d_rebuilt d) "panic") docs then ["validator-panic"] else []) ++
                               (if negb (scalars_accept_all S) then ["picky-scalar"] else []) ++
                               (if negb (Nat.eqb (List.length (types R)) (List.length (listed S F))) then ["orphans-dropped"] else []) ++
+                              (if gating_coherent S F then [] else ["incoherent-gating"]) ++
                               (if hyps then [] else ["outside-hypotheses"]))%list
                   end
               end
